@@ -26,7 +26,7 @@ EPS = float(np.finfo(float).eps)
 TAGS = ["VERTEX_XY", "VERTEX_TRACKXYZ", "VERTEX_SE2", "VERTEX_SE3:QUAT", "EDGE_SE2", "EDGE_SE3:QUAT", "EDGE_SE2_XY",
         "EDGE_SE3_TRACKXYZ", "PARAMS_SE2OFFSET", "PARAMS_SE3OFFSET"]
 CUSTOM_TAGS = ["EDGE_DISTANCE", "EDGE_PRIOR_XY", "VISUAL_RANGE", "PRIOR_XY"]
-ENTRIES = ["Graph.from_g2o", "Graph.from_g2o+custom", "load_g2o", "load_g2o_r2", "load_g2o_r3", "load_g2o_se2", "load_g2o_se3"]
+ENTRIES = ["Graph.from_g2o", "Graph.from_g2o+custom", "Graph.from_g2o+override+custom", "load_g2o", "load_g2o_r2", "load_g2o_r3", "load_g2o_se2", "load_g2o_se3"]
 PATH = "/simfs/in.g2o"
 
 
@@ -110,7 +110,7 @@ def _pose(t, vals, angle_in_file=None):
     return s
 
 
-def reference_parse(text, custom):
+def reference_parse(text, custom, override=False):
     """text -> (workload spec, n unrecognised non-blank lines, max |angle| seen).  Independent of graphslam."""
     vertices, edges, params = [], [], {}
     junk = []
@@ -152,7 +152,7 @@ def reference_parse(text, custom):
             elif head == "EDGE_SE2":
                 nums = [float(x) for x in f[2:]]
                 big = max(big, abs(nums[2]))
-                edges.append({"kind": "odometry", "ids": [int(f[0]), int(f[1])],
+                edges.append({"kind": "robust_odometry_se2" if override else "odometry", "ids": [int(f[0]), int(f[1])],
                               "estimate": _pose("SE2", [nums[0], nums[1], exact_wrap(nums[2])], nums[2]), "information": _sym(nums[3:9], 3)})
             elif head == "EDGE_SE3:QUAT":
                 nums = [float(x) for x in f[2:]]
@@ -282,6 +282,11 @@ def gen_file(rng):
                 clines.append((rng.choice(["EDGE_DISTANCE", "VISUAL_RANGE"]), [I(a), I(b), F(abs(val()) + 0.1), F(10.0 ** rng.uniform(-2, 2))]))
             elif allp:
                 clines.append((rng.choice(["EDGE_PRIOR_XY", "PRIOR_XY"]), [I(rng.choice(allp)), F(val()), F(val())] + [F(v) for v in tri(2)]))
+    if elines and rng.random() < 0.25:
+        # the same measurement twice is two edges: textually identical edge lines (a duplicate may differ in spacing only)
+        for _ in range(rng.randint(1, 2)):
+            elines.insert(rng.randrange(len(elines) + 1), rng.choice(elines))
+        meta["duplicate_edge_lines"] = True
     # legal order: parameters precede the edges that use them; everything else free
     style = rng.choice(["canonical", "vertices_last", "shuffled", "shuffled"])
     meta["order"] = style
@@ -515,6 +520,7 @@ class C14(OptEngineBase):
                 for which in (0, 1):
                     for custom in (False, True):
                         ref[(which, custom)] = reference_parse(texts[which], custom)
+                    ref[(which, "override")] = reference_parse(texts[which], True, override=True)
                 self._probes_for_text(res, case, text)
                 if case["workload"].get("lines_b"):
                     res.probe("two_files_interleaved")
@@ -550,7 +556,10 @@ class C14(OptEngineBase):
                 which = int(op.get("file", 0))
                 path = paths[which]
                 try:
-                    if op["entry"].startswith("Graph.from_g2o"):
+                    if op["entry"] == "Graph.from_g2o+override+custom":
+                        g = Graph.from_g2o(path, [useredges.RobustOdometrySE2] + list(useredges.CUSTOM_G2O_TYPES))
+                        custom = "override"
+                    elif op["entry"].startswith("Graph.from_g2o"):
                         g = Graph.from_g2o(path, list(useredges.CUSTOM_G2O_TYPES)) if custom else Graph.from_g2o(path)
                     else:
                         g = getattr(gload, op["entry"])(path)
@@ -671,7 +680,7 @@ class C14(OptEngineBase):
                 else:
                     res.probe("logger_suppressed")
                 # all entry points / schedules agree
-                if not custom:
+                if custom is False:
                     if which not in first_plain:
                         first_plain[which] = got
                     else:
